@@ -106,7 +106,9 @@ func c41Sample() {
 
 func c41RunTurn(out *vgirpc.OutputCollector) error {
 	c41Sample()
-	t := c41Turn{emits: 1, end: "ok"}
+	// past the scripted turns (an HTTP producer keeps being asked until it finishes) the handler
+	// finishes; on an exchange that is an error, which ends the stream as well
+	t := c41Turn{emits: 0, end: "fin"}
 	if c41Idx < len(c41Plan) {
 		t = c41Plan[c41Idx]
 	}
@@ -539,7 +541,9 @@ func c41Gen(g *Gen) {
 					end, emits = "panic", r.Intn(2)
 				case x < 90 && kind == "prod":
 					end, emits = "fin", r.Intn(2)
-				case x < 95:
+				case x < 95 && !(transport == "http" && kind == "prod"):
+					// (over HTTP a producer runs ahead of the client inside one request, so where a
+					// client-side cancel lands is not scriptable; exchanges are lockstep)
 					end = "cancel"
 				}
 				ts := fmt.Sprintf("%d:%s", emits, end)
